@@ -8,6 +8,7 @@
 import Ladybug.DrvCore
 import Ladybug.Model.AP
 import Ladybug.Model.APObj
+import Ladybug.Model.APForms
 
 open Drv Cal
 
@@ -152,9 +153,43 @@ def hist (toks : List String) : String :=
     | some (.error e), some _ => showErr e
     | _, _ => "bad-op"
 
+/-- `k=v` tokens with `N` kept as an explicit `None` value (round 4: `from_dictv`). -/
+def parseKVOpt : List String → Option AP.DictV
+  | [] => some []
+  | t :: ts =>
+    match t.splitOn "=" with
+    | [k, v] =>
+      match optInt? v, parseKVOpt ts with
+      | some n, some rest => some ((k, n) :: rest)
+      | _, _ => none
+    | _ => none
+
+def showDictV (d : AP.DictV) : String :=
+  joinSp (d.map fun p => p.1 ++ "=" ++ (match p.2 with | none => "N" | some v => toString v))
+
+def int7? (toks : List String) : Option (List Int × Bool) :=
+  match toks with
+  | [a, b, c, d, e, f, g, l] => do
+    let xs ← [a, b, c, d, e, f, g].mapM String.toInt?
+    let l ← bool? l
+    pure (xs, l)
+  | _ => none
+
 def handle (toks : List String) : String :=
   match toks with
   | "hist" :: rest => hist rest
+  | "from_dictv" :: rest =>
+    match parseKVOpt rest with
+    | some d => showAP (AP.fromDictV d) ++ " ; " ++ showDictV (AP.fillNone d)
+    | none => "bad-op"
+  | "mk_text" :: rest =>
+    match int7? rest with
+    | some ([a, b, c, d, e, f, g], l) => showAP (AP.mkText? a b c d e f g l)
+    | _ => "bad-op"
+  | "sparse" :: rest =>
+    onAP (period? rest) fun ap =>
+      showAP (AP.fromDict (AP.sparseDict ap)) ++ " ; " ++
+        joinSp ((AP.sparseDict ap).map fun p => p.1 ++ "=" ++ toString p.2)
   | "from_string" :: rest => showAP (AP.fromString (" ".intercalate rest))
   | "from_dict" :: rest =>
     match parseKV rest with
